@@ -501,6 +501,10 @@ pub mod rewrite {
     let def_and_uses =
       variable_definition::VariableDefinitionLookup::new(*module_reference, module)
         .find_all_definition_and_uses(&def_or_use_loc)?;
+    // `this` is bound by the enclosing class declaration, not by an identifier that can be renamed.
+    if module.toplevels.iter().any(|t| t.loc() == def_and_uses.definition_location) {
+      return None;
+    }
     let renamed = variable_definition::apply_renaming(
       module,
       &def_and_uses,
